@@ -1,3 +1,4 @@
+--! kinds: Q R F
 /-
 Model of the calendar core of pymeeus/Epoch.py and pymeeus/base.py (hand-written from the
 source; tied to the source by the correspondence check, see DESIGN.md §3/§4).
